@@ -44,7 +44,12 @@ Definition g_step (sh : shape) (g : gst) (st : step) : gst * (list cobs * list s
   if g_over g then
     (* the call is over for the client; whatever the handler still does reaches nobody *)
     match st with
-    | SetH _ | SendH _ | SetT _ | S2C _ | RecvEOF => (g, ([], []))
+    | SetH _ | SetT _ => (g, ([], []))
+    (* the stream is done: nothing can be written to it any more *)
+    | SendH _ => (g, ([], [SSendH false]))
+    | S2C _ => (g, ([], [SSent false]))
+    (* a RecvMsg with nothing buffered and the client not half-closed can only report the stream's end *)
+    | RecvEOF => (g, ([], if g_half g then [] else [SRecvErr]))
     | Ret _ => (g, ((if is_invoke sh then [] else [CHdr (canon_md (if g_sent g then g_chdr g else [])); CTrl []]), []))
     | _ => (g, stuck)
     end
